@@ -98,6 +98,19 @@ pub fn cases(tier: &str) -> Vec<Case> {
                             for h in histories(pk, tier) {
                                 out.push(Case { sc: sc.clone(), goal_rng, hist: h, fault: None });
                             }
+                            // a narrow rotation cone (long runs of rejected draws inside the space's sampler):
+                            // a rarely taken branch of a sampler must draw from the seeded generator too
+                            if kit == "SO3" && w.name == "subset0001" && bias == 0.05 {
+                                for r in [0.5, 0.35] {
+                                    let mut sc2 = sc.clone();
+                                    sc2.spec = crate::kit::Spec::So3 { bounds: Some(([0.0, 0.0, 0.0, 1.0], r)), frac: None };
+                                    sc2.tag = format!("{}/cone{r}", sc.tag);
+                                    out.push(Case { sc: sc2.clone(), goal_rng, hist: vec![Op::Setup, Op::Solve(if pk == Pk::Prm { 1 } else { 25 }), Op::Solve(if pk == Pk::Prm { 1 } else { 25 })], fault: None });
+                                    if pk == Pk::Prm {
+                                        out.push(Case { sc: sc2, goal_rng, hist: vec![Op::Setup, Op::Construct(25), Op::Solve(1)], fault: None });
+                                    }
+                                }
+                            }
                             // a sampler that fails once in the middle of a history: the call that meets
                             // the failure ends early, and the calls after it must still be a function
                             // of the seed (one world and two seeds are enough for this dimension)
@@ -234,9 +247,113 @@ fn run_case(case: &Case, idx: usize, tier: &str, rep: &mut Report) {
     rep.sample(|| json!({"scenario": case.sc.tag, "history": format!("{:?}", case.hist), "entropy_requests": [ea, eb], "equal": a == b}));
 }
 
+/// The ordered trace of sampler answers of one run: (from the goal sampler?, state bits).
+fn sampler_trace<K: Kit>(rig: &Rig<K>) -> Vec<(bool, Vec<u64>)> {
+    let mut t: Vec<(u64, bool, Vec<u64>)> = rig.space.log.borrow().iter().map(|(q, s)| (*q, false, K::bits(s))).collect();
+    t.extend(rig.goal.sample_log.borrow().iter().map(|(q, s)| (*q, true, K::bits(s))));
+    t.sort_by_key(|x| x.0);
+    t.into_iter().map(|(_, g, b)| (g, b)).collect()
+}
+
+/// "Wall-clock time may only affect how many iterations complete, never which decisions are taken":
+/// the same seeded instance is run under logical clocks of different speed (1, 2 and 4 ms per deadline
+/// check, same time limit). The slower clock completes fewer iterations; its ordered trace of sampler
+/// answers (which sampler was asked, and what it returned) must be a PREFIX of the faster clock's trace,
+/// and if it found a path the faster run returns the same path.
+fn clock_case<K: Kit>(sc: &Scenario, goal_rng: bool, budget: usize, rep: &mut Report) {
+    let run = |tick_ns: u64| {
+        guarded(|| {
+            let mut rig = Rig::<K>::new(sc, true);
+            rig.pass_through();
+            rig.logging(true);
+            rig.goal_mode(if goal_rng { GoalMode::Rng } else { GoalMode::Cycle });
+            oxmpl::verif::clock_reset(tick_ns);
+            let res = if rig.is_prm() {
+                rig.drv.set_prm_timeout(iters_secs(budget));
+                let c = rig.drv.construct_roadmap();
+                c.map(|_| vec![])
+            } else {
+                rig.drv.solve(iters(budget))
+            };
+            let path: Option<Vec<Vec<u64>>> = res.as_ref().ok().map(|p| p.iter().map(|s| K::bits(s)).collect());
+            (sampler_trace::<K>(&rig), path)
+        })
+    };
+    rep.count("clock_perturbation_cases", 1);
+    rep.count("evaluations", 3);
+    let (Ok(fast), Ok(mid), Ok(slow)) = (run(1_000_000), run(2_000_000), run(4_000_000)) else {
+        rep.count("histories_that_unwound", 1);
+        return;
+    };
+    rep.count("traces_validated", 1);
+    for (name, a, b) in [("2ms-vs-1ms", &mid, &fast), ("4ms-vs-2ms", &slow, &mid)] {
+        let (ta, pa) = a;
+        let (tb, pb) = b;
+        let prefix = ta.len() <= tb.len() && ta.iter().zip(tb.iter()).all(|(x, y)| x == y);
+        let pk = sc.params.pk;
+        if !prefix {
+            let at = ta.iter().zip(tb.iter()).position(|(x, y)| x != y).unwrap_or(ta.len().min(tb.len()));
+            rep.violate(format!("C07|{}|clock-dependent-decisions|{name}", pk.name()), format!("with a slower logical clock ({name}) the trace of sampler answers is not a prefix of the faster clock's trace (first difference at draw {at}; {} vs {} draws): elapsed time influenced a decision", ta.len(), tb.len()), || {
+                json!({"kind": "repro-clock", "prop": "C07", "scenario": sc.json(), "goal_sampler_uses_rng": goal_rng, "budget_iterations": budget, "first_difference_at_draw": at})
+            });
+            return;
+        }
+        if ta.len() < tb.len() {
+            rep.count("clock_runs_with_fewer_iterations", 1);
+        }
+        if let (Some(x), false) = (pa, pk == crate::drv::Pk::Prm) {
+            if pb.as_ref() != Some(x) {
+                rep.violate(format!("C07|{}|clock-dependent-result|{name}", pk.name()), "the slower clock found a path that the faster clock (same decisions, more iterations) does not return".to_string(), || {
+                    json!({"kind": "repro-clock", "prop": "C07", "scenario": sc.json(), "goal_sampler_uses_rng": goal_rng, "budget_iterations": budget})
+                });
+                return;
+            }
+        }
+    }
+}
+
+fn clock_cases(tier: &str, rep: &mut Report) {
+    let thorough = tier != "quick";
+    let seeds: Vec<u64> = if thorough { (0..16).collect() } else { vec![0, 3, 7] };
+    let mut jobs: Vec<(Scenario, bool, usize)> = Vec::new();
+    for kit in KITS {
+        let b = base_of(kit);
+        for w in [b.world_named("subset0001", vec![b.obstacles[0].clone()]), b.world_named("goal-sealed-off", vec![b.seal_goal.clone()])] {
+            for pk in Pk::ALL {
+                for &seed in &seeds {
+                    for bias in [0.05, 0.4] {
+                        if pk == Pk::Prm && bias != 0.05 {
+                            continue;
+                        }
+                        let mut p = b.params(pk, if pk == Pk::Prm { 1.6 } else { 0.6 }, 1.5, bias);
+                        p.seed = Some(seed);
+                        let sc = b.scenario(w.clone(), p, &format!("C07/clock/{kit}/{}/{}/seed{seed}/bias{bias}", w.name, pk.name()));
+                        for budget in if thorough { vec![16, 40, 100] } else { vec![40] } {
+                            jobs.push((sc.clone(), seed % 2 == 0, budget));
+                        }
+                    }
+                }
+            }
+        }
+    }
+    let r = jobs
+        .par_iter()
+        .map(|(sc, goal_rng, budget)| {
+            let mut rep = Report::new();
+            with_kit!(sc.kit, clock_case(sc, *goal_rng, *budget, &mut rep));
+            rep
+        })
+        .reduce(Report::new, |mut a, b| {
+            a.merge(b);
+            a
+        });
+    rep.merge(r);
+}
+
 pub fn run(tier: &'static str) -> i32 {
     let t0 = Instant::now();
     let mut rep = Report::new();
+    clock_cases(tier, &mut rep);
     if !canary() {
         rep.engine_error("entropy interposition did not engage (getrandom symbol not resolved to the harness)".into());
     }
@@ -259,14 +376,14 @@ pub fn run(tier: &'static str) -> i32 {
         prop: "C07",
         tier,
         level: "model_checking",
-        rule: "call histories over {setup, solve(budget), re-setup, repeated solve, construct_roadmap} x 4 planners x 6 spaces x worlds x seed lattice x goal samplers that do / do not consume RNG words x goal bias {0.05, 0.5}, run with the REAL samplers and seeded RNG under the logical clock; the environment alphabet is the OS-entropy answer: every history is executed under entropy key A (twice) and key B on fresh threads; states = distinct observation vectors; transitions = API calls executed",
+        rule: "call histories over {setup, solve(budget), re-setup, repeated solve, construct_roadmap} x 4 planners x 6 spaces x worlds x seed lattice x goal samplers that do / do not consume RNG words x goal bias {0.05, 0.5}, run with the REAL samplers and seeded RNG under the logical clock; the environment alphabet is the OS-entropy answer: every history is executed under entropy key A (twice) and key B on fresh threads; plus clock perturbation: the same seeded run under logical clocks of 1 / 2 / 4 ms per deadline check - the slower run's ordered trace of sampler answers must be a prefix of the faster run's; states = distinct observation vectors; transitions = API calls executed",
         exhaustive: true,
         bounds: json!({"cases": all.len()}),
         assumptions: vec![
             "getrandom / ThreadRng / RandomState are all fed by the harness's exported getrandom symbol (canary-checked at start)".into(),
             "equal logical-clock budgets stand for `equal sample counts` of the quantifier".into(),
         ],
-        must_be_positive: vec!["traces_validated", "histories"],
+        must_be_positive: vec!["traces_validated", "histories", "clock_perturbation_cases", "clock_runs_with_fewer_iterations"],
     };
     finish(&meta, rep, t0)
 }
